@@ -3,6 +3,7 @@ module verifharness
 go 1.25.0
 
 require (
+	filippo.io/edwards25519 v1.2.0
 	github.com/aperturerobotics/bifrost v0.0.0
 	github.com/mr-tron/base58 v1.3.0
 	github.com/zeebo/blake3 v0.2.4
@@ -10,7 +11,6 @@ require (
 )
 
 require (
-	filippo.io/edwards25519 v1.2.0 // indirect
 	github.com/aperturerobotics/controllerbus v0.53.1 // indirect
 	github.com/aperturerobotics/json-iterator-lite v1.0.1-0.20260223122953-12a7c334f634 // indirect
 	github.com/aperturerobotics/protobuf-go-lite v0.12.2 // indirect
